@@ -61,7 +61,8 @@ def plan(tier, seed):
     shards.append({"kind": "features"})
     for nm in corpus.extra_names():
         shards.append({"kind": "extra", "name": nm})
-        shards.append({"kind": "extra", "name": nm, "cmdline": "roots"})  # only the top files named on the protoc command line
+        if len(corpus.EXTRA_SETS[nm]) > 1:
+            shards.append({"kind": "extra", "name": nm, "cmdline": "roots"})  # only the top files named on the protoc command line
     shards.append({"kind": "bundled"})
     return shards
 
